@@ -102,7 +102,7 @@ def gen_masks(rng):
 
 
 def gen_decode(rng):
-  return {'test': 'decode', 'seed': rng.randint(0, 10 ** 6), 'batch': rng.randint(1, 2), 'T': rng.randint(1, 6), 'heads': rng.randint(1, 3), 'features': rng.randint(1, 4), 'dim': rng.randint(1, 3)}
+  return {'test': 'decode', 'seed': rng.randint(0, 10 ** 6), 'batch': rng.randint(1, 2), 'bshape': rng.choice([None, None, [], [2, 3], [1, 2], [2, 1, 2]]), 'T': rng.randint(1, 6), 'heads': rng.randint(1, 3), 'features': rng.randint(1, 4), 'dim': rng.randint(1, 3)}
 
 
 def rnn_rows(c, got):
